@@ -445,6 +445,7 @@ def report(prop, spec, tier, runs, findings, kf, t0, extra, status_extra):
     trusted, assumed_dep, not_verified, desugar, dropped = [], ['every unit: std ASCII classification predicates of char / u8 as documented (contracts/std_specs.rs, 17 assume_specification items; the Unicode predicates exact on ASCII, uninterpreted beyond)',
                                                             'every unit: stand-ins for the `str` pattern methods with a literal pattern and the whitespace trims, as documented by std (contracts/std_str_specs.rs, 15 external_body functions that call the std method; only reached through rule D32, i.e. when the code of /repo calls such a method)'], [], [], []
     assumed_parser = []
+    pinned = []
     assumption_counts = {}
     samples = []
     cmds = []
@@ -509,6 +510,7 @@ def report(prop, spec, tier, runs, findings, kf, t0, extra, status_extra):
         assumed_dep += ['%s: %s' % (U.name, t) for t in U.assumed_dep]
         not_verified += ['%s: %s' % (U.name, t) for t in U.not_verified]
         assumed_parser += ['%s: %s' % (U.name, t) for t in getattr(U, 'assumed_parser', [])]
+        pinned += sorted(getattr(U, 'trusted_seen', {}).keys())
         for e_ in U.all_fn_entries():
             if getattr(e_, 'auto_trusted', False):
                 not_verified.append('%s: %s:%s — %s' % (U.name, e_.file, e_.qualname, e_.note))
@@ -590,6 +592,7 @@ def report(prop, spec, tier, runs, findings, kf, t0, extra, status_extra):
             per_function=per_fn,
             samples=samples or [dict(note='no contract sample')],
             trusted=trusted, assumed_dep=assumed_dep, assumed_parser=assumed_parser, unverified_functions=not_verified,
+            pinned_text=dict(count=len(pinned), functions=pinned, note='functions of /repo that are trusted / modelled by a stub / read but not verified: the hash of their comment-free text matched contracts/trusted_hashes.json on this run (a mismatch makes the run undecided)'),
             desugarings=desugar, dropped=sorted(set(dropped)), assumption_scan=assumption_counts,
             bounded_obligations=bounded,
             known_findings=[f['id'] for f in findings if f['id'] in printed],
